@@ -935,6 +935,22 @@ def compare(I, op, a, b):
             if r is None:
                 raise Undecided("symbolic text compared with constant")
         return r if t is ast.Eq else ((not r) if isinstance(r, bool) else SBool(z3.Not(r.z)))
+    if (isinstance(a, SNumText) or isinstance(b, SNumText)) and t in (ast.Eq, ast.NotEq):
+        # str(n) of a symbolic integer compared with a text: equal iff the text is the canonical decimal numeral of n
+        x, y = (a, b) if isinstance(a, SNumText) else (b, a)
+        r = None
+        if isinstance(x.num, SInt) and isinstance(y, str):
+            try:
+                r = simp_bool(x.num.z == int(y)) if str(int(y)) == y else False
+            except ValueError:
+                r = False
+        elif isinstance(x.num, SInt) and isinstance(y, SNumText) and isinstance(y.num, SInt):
+            r = simp_bool(x.num.z == y.num.z)
+        elif not isinstance(y, (str, SNumText, SText)):
+            r = False
+        if r is None:
+            raise Undecided("text of a symbolic number compared with text")
+        return r if t is ast.Eq else ((not r) if isinstance(r, bool) else SBool(z3.Not(r.z)))
     if is_bytes_like(a) or is_bytes_like(b):
         if not (is_bytes_like(a) and is_bytes_like(b)):
             if t is ast.Eq:
